@@ -65,7 +65,7 @@ Shapes == {"nil", "true", "int0", "int5", "intneg", "float", "strempty", "str", 
            "cyclist", "cycmap", "cycptr", "cycmutual", "strlong", "listlong",
            \* interface slices with methods, pointers that lead to themselves, defined pointer types, NaN keys, keys of different
            \* defined types with one value, shared sub-values sixty levels deep
-           "errslice", "stringerslice", "ptrcycle", "ptrself", "stringermap", "hiddennanmap", "nilifaceptr", "nilerrptr", "structslice", "arrslice", "structmapv", "structkeymap", "intstrmap", "floatboolmap", "intnilmap", "floaterrmap", "intifacemap", "ptrptrmap", "namedptr", "nanmap", "nanifacemap", "namedkeys", "dag60", "dagmap"} \cup CharShapes \cup StrShapes \cup IntEdgeShapes
+           "errslice", "stringerslice", "ptrcycle", "ptrself", "stringermap", "hiddennanmap", "nilifaceptr", "nilerrptr", "rows2d", "grid2d", "maps1d", "structs1d", "arrs2d", "structslice", "arrslice", "structmapv", "structkeymap", "intstrmap", "floatboolmap", "intnilmap", "floaterrmap", "intifacemap", "ptrptrmap", "namedptr", "nanmap", "nanifacemap", "namedkeys", "dag60", "dagmap"} \cup CharShapes \cup StrShapes \cup IntEdgeShapes
 V == Var("v")
 F0(f) == Filt(f, V, <<>>)
 Skeletons ==
@@ -103,6 +103,8 @@ Skeletons ==
     keysslice |-> <<PrintS(Filt("slice", Filt("keys", V, <<>>), <<LI(2), Un("-", LI(2))>>))>>,
     forkeys |-> <<For1("k", Filt("keys", V, <<>>), <<PrintS(Var("k"))>>)>>, firstlast |-> <<PrintS(Filt("first", V, <<>>)), PrintS(Filt("last", V, <<>>))>>,
     idxmi |-> <<PrintS(Item(Var("mi"), V)), PrintS(Cond(Test(Item(Var("mi"), V), "defined", <<>>, FALSE), LI(1), LI(2)))>>, idxmk |-> <<PrintS(Item(Var("mk"), V))>>,
+    firstin |-> <<PrintS(Cond(Bin("in", Item(V, LI(0)), V), LI(1), LI(2))), PrintS(Cond(Bin("not in", Filt("last", V, <<>>), V), LI(1), LI(2))),
+                  For1("r", V, <<PrintS(Cond(Bin("in", Var("r"), V), LI(1), LI(2)))>>), PrintS(Cond(Bin("in", Arr(<<LI(1), LI(2)>>), V), LI(1), LI(2)))>>,
     idxin |-> <<PrintS(Cond(Bin("in", V, Var("mi")), LI(1), LI(2))), PrintS(Cond(Bin("in", V, Var("mk")), LI(1), LI(2)))>>,
     mergeto |-> <<PrintS(Filt("merge", Var("mis"), <<V>>)), PrintS(Filt("merge", Var("mfb"), <<V>>))>>, mergeto2 |-> <<PrintS(Filt("merge", Var("mi"), <<V>>)), PrintS(Filt("merge", V, <<Var("mis")>>))>>,
     mergefnto |-> <<PrintS(Call("merge", <<Var("mis"), V>>)), PrintS(Call("merge", <<V, Var("mfb")>>))>>,
